@@ -84,7 +84,8 @@ def c17(tier=None):
     samples = []
     scs = [gen_converged(c.rng, c.rng.choice([1, 2]), c.rng.choice([2, 3]), c.rng.choice([12, 18]), {"pub": 8, "sub": 5, "end": 2}) for _ in range(n_of(c, 10, 150))]
     run_scenarios(c, "tenants-publish-retain-will", scs, samples)
-    scs = [gen_lifecycle(c.rng, c.rng.choice([1, 2]), 2, takeover=0.6) for _ in range(n_of(c, 8, 120))]
+    scs = brokerlib.corpus(c.rng, ["same-client-id-two-tenants"])
+    scs += [gen_lifecycle(c.rng, c.rng.choice([1, 2]), 2, takeover=0.6) for _ in range(n_of(c, 8, 120))]
     run_scenarios(c, "tenants-shared-client-ids", scs, samples)
     return c.finish(samples=samples, rule="case = one script with clients spread over 2-3 mount points using '#', '+/...' and literal filters, publishes / retained messages / wills, and client identifiers shared across mount points")
 
